@@ -61,7 +61,17 @@ Proof. exact (symm_mm_correct O Rth). Qed.
 Theorem C15_symmetric_result_placement : forall (right_row : bool) (c0 cs i j : Z),
   cppblas_symm_addr right_row c0 cs i j = if right_row then c0 + i * cs + j else c0 + i + j * cs.
 Proof. exact symm_mm_addr. Qed.
+(* active right-hand vector: the statement recorded for row i of (band matrix) x vector - window of columns, multiplier address
+   and stride, gradient index and stride all GENERATED from matmul_band - is the differential of the defining sum over the
+   engine's stored window, for any stride of the vector *)
+Theorem C15_band_derivative_statement_partial : forall (row_major : bool) (L U dim : Z) (mem : Z -> T) (left_ptr off right_index incx i : Z) (g : Z -> T),
+  ops_val O (band_statement row_major L U dim mem left_ptr off right_index incx i) g =
+  zsum O (band_j_end i U dim - band_j_start i L)
+       (fun q => omul O (mem (left_ptr + index (if row_major then BandR else BandC) L U i (band_j_start i L + q) off))
+                        (g (right_index + (band_j_start i L + q) * incx))).
+Proof. exact (band_statement_is_differential O). Qed.
 End AnyRing.
+Print Assumptions C15_band_derivative_statement_partial.
 Print Assumptions C15_symmetric_matrix_matrix_partial.
 Print Assumptions C15_symmetric_result_placement.
 Print Assumptions C15_symmetric_matrix_vector_partial.
